@@ -2,11 +2,12 @@
     This file contains only the property theorems, each closed by [exact], with
     [Print Assumptions] beneath.  Models: Model/Tokenizer.v, Model/Parser.v, Model/Command.v,
     Model/Printer.v; proofs: Proofs/ParserBasics.v, ExprRoundTrip.v, FuelProofs.v,
-    ParserProofs.v, CommandProofs.v, TotalityProofs.v, PanicProofs.v, QueryRoundTrip.v. *)
+    ParserProofs.v, CommandProofs.v, TotalityProofs.v, PanicProofs.v, QueryRoundTrip.v,
+    KnownClassProofs.v. *)
 From Coq Require Import NArith ZArith List Bool.
 From Snel Require Import Base.Bytes Model.Tokenizer Model.Parser Model.Command Model.Printer
   Proofs.ExprRoundTrip Proofs.FuelProofs Proofs.ParserProofs Proofs.CommandProofs
-  Proofs.TotalityProofs Proofs.PanicProofs Proofs.QueryRoundTrip.
+  Proofs.TotalityProofs Proofs.PanicProofs Proofs.QueryRoundTrip Proofs.KnownClassProofs.
 Import ListNotations.
 Open Scope N_scope.
 
@@ -87,6 +88,16 @@ Theorem C17_fixed_agrees : forall s, (forall k, parse_command false s <> PPanic 
   parse_command true s = parse_command false s.
 Proof. exact fixed_agrees. Qed.
 Print Assumptions C17_fixed_agrees.
+
+(** Outside the known class the grammar as it is does not panic either: if at no position of
+    the input starts LIMIT/OFFSET followed by an integer outside u32, nor a numeral that [number]
+    would convert and that is outside i64 / overflows f64 ([has_bad], decidable), the QUERY
+    grammar returns a command or an error; and every panic of parse_command is such a panic. *)
+Theorem C17_no_panic_outside_known :
+  (forall s, has_bad s = false -> forall k, parse_query false s <> Panic k) /\
+  (forall s k, parse_command false s = PPanic k -> exists q, has_bad q = true /\ parse_query false q = Panic k).
+Proof. exact (conj no_panic_outside_known command_panic_in_known). Qed.
+Print Assumptions C17_no_panic_outside_known.
 
 (** The known classes at the conversions: each one panics exactly on its out-of-range texts. *)
 Theorem C17_panic_classes : forall neg d,
